@@ -75,6 +75,14 @@ class Sb:
     def rclose(self, c):
         return self.add("rclose", conn=c)
 
+    def stall(self, c):
+        self.add("stall", conn=c)
+        return self
+
+    def unstall(self, c):
+        self.add("unstall", conn=c)
+        return self
+
     def rreset(self, c):
         return self.add("rreset", conn=c)
 
@@ -195,6 +203,20 @@ def collision():
                         b.ka(cs[lose])
                     b.adv(1)
                     out.append(b.tag("collision").build())
+    # the rule does not depend on what else was negotiated: hold time 0 (no timers), differing per connection
+    for rn, lid, rid, las, ras in rel[:4]:
+        for first_open in DIRS:
+            for lh, rh1, rh2 in ((0, 90, 90), (90, 0, 0), (90, 0, 30), (90, 30, 0), (3, 9, 0)):
+                b = Sb("col-hold-%s-%s-%d-%d-%d" % (rn, first_open, lh, rh1, rh2),
+                       [peer(localAS=las, remoteAS=ras, hold=lh)], routerID=lid)
+                b.start()
+                cs = {"out": b.dial_ok(), "in": b.connect()}
+                for d, rh in zip((first_open,) + tuple(x for x in DIRS if x != first_open), (rh1, rh2)):
+                    b.open(cs[d], rid=rid, hold=rh)
+                dominant = ip4(lid) > ip4(rid) or (lid == rid and las > ras)
+                keep = "out" if dominant else "in"
+                b.ka(cs[keep]).upd(cs[keep]).adv(1)
+                out.append(b.tag("collision", "hold0").build())
     # established first: KEEPALIVE on the first connection before the second OPEN
     for rn, lid, rid, las, ras in rel[:2]:
         for first in DIRS:
@@ -428,10 +450,13 @@ def holdgrid(pairs=None, rnd=None, nrand=0):
     for lh, rh in pairs:
         h = min(lh, rh)
         for d in DIRS:
-            for pat in ("silent", "ka", "upd", "late", "writes", "slowka"):
+            for pat in ("silent", "ka", "upd", "late", "writes", "slowka", "updnoh"):
                 if pat != "silent" and d == "in" and (lh, rh) not in ((3, 90), (0, 90), (90, 0), (10, 10)):
                     continue
-                b = Sb("hold-%d-%d-%s-%s" % (lh, rh, d, pat), [peer(hold=lh)])
+                if pat == "updnoh" and h == 0:
+                    continue
+                # updnoh: the plugin installed no UPDATE handler; UPDATEs still restart the hold timer
+                b = Sb("hold-%d-%d-%s-%s" % (lh, rh, d, pat), [peer(hold=lh, noHandler=(pat == "updnoh"))])
                 b.start()
                 c = b.to_state("openConfirm", direction=d, hold=rh)
                 if h == 0:
@@ -444,7 +469,7 @@ def holdgrid(pairs=None, rnd=None, nrand=0):
                 if pat == "silent":
                     b.ka(c)
                     b.advu(H - 1).advu(1).adv(1)
-                elif pat in ("ka", "upd"):
+                elif pat in ("ka", "upd", "updnoh"):
                     b.ka(c)
                     for _ in range(4):
                         b.advu(H - 1)
@@ -1555,6 +1580,20 @@ def inbound_drop():
                 c2 = b.connect()
                 b.open(c2).ka(c2).adv(1)
                 out.append(b.tag("pace", "passive" if passive else "active", "indrop").build())
+        # the connection is reset before corebgp has written its OPEN (GetCapabilities takes a moment)
+        for how in ("reset", "eof"):
+            b = Sb("indrop-%s-preopen-%s" % ("pas" if passive else "act", how),
+                   [peer(passive=passive, connRetry=sec(3), gates=["GetCapabilities#1"])])
+            b.start()
+            c = b.connect()
+            if how == "reset":
+                b.rreset(c)
+            else:
+                b.rclose(c)
+            b.add("release", peer="p1", call="GetCapabilities", w=1)
+            c2 = b.connect()
+            b.open(c2).advu(sec(3) - 1).advu(1).ka(c2).adv(6)
+            out.append(b.tag("pace", "passive" if passive else "active", "indrop", "gate").build())
     return out
 
 
@@ -1746,6 +1785,32 @@ def slow_callbacks():
                 b.add("release", peer="p1", call="Update", w=1)
                 b.upd(c).write("p1", 1, [9]).adv(1).ka(c).adv(1)
                 out.append(b.tag("writer", "hold", "gate").build())
+                # messages keep arriving while the handler is busy for longer than the hold time: none is lost and
+                # the hold timer is restarted once the handler has returned
+                p = peer(hold=h, gates=["Update#1"])
+                b = Sb("slowcb-queued-%s-%d-%s" % (d, h, over), [p])
+                b.start()
+                c = b.establish(direction=d, hold=h)
+                b.upd(c, [7])
+                b.advu(sec(h) // 3).upd(c, [8]).ka(c).upd(c, [9])
+                b.advu(sec(h) // 3 + 1 if over == "ka" else sec(h) + 1)
+                b.add("release", peer="p1", call="Update", w=1)
+                b.adv(1).ka(c).adv(1)
+                out.append(b.tag("writer", "hold", "gate").build())
+            # the connection dies while the handler is busy and the keepalive timer comes due
+            for end in ("reset", "eof", "cease"):
+                p = peer(hold=h, gates=["Update#1"])
+                b = Sb("slowcb-%s-%s-%d" % (end, d, h), [p])
+                b.start()
+                c = b.establish(direction=d, hold=h)
+                b.upd(c, [7])
+                {"reset": lambda: b.rreset(c), "eof": lambda: b.rclose(c), "cease": lambda: b.notif(c, 6, 0)}[end]()
+                b.write("p1", 1, [1])         # fails on a reset connection, and must say so
+                b.advu(sec(h) // 3 + 1)
+                b.write("p1", 1, [2])
+                b.add("release", peer="p1", call="Update", w=1)
+                b.write("p1", 1, [3]).adv(70)
+                out.append(b.tag("writer", "hold", "gate", "end").build())
     return out
 
 
@@ -1825,6 +1890,24 @@ def pm_gates():
             b.steps.append(multi(*subs))
             b.adv(1).adv(61)
             out.append(b.tag("damp" if code != 6 else "nodamp", "pmgate", "stop").build())
+    # (4) PM held when a damping error arrives; a new inbound connection is accepted meanwhile and waits for the
+    #     PM: it belongs to the hold-down that is about to begin
+    for passive in (True, False):
+        for st in ("openConfirm", "established"):
+            b = Sb("pmgate-err-connect-%s-%s" % ("pas" if passive else "act", st), [peer(passive=passive, gates=["err-in#1"], idleHold=sec(2))])
+            b.start()
+            ci = b.to_state(st, direction="in")
+            b.notif(ci, 3, 1)                         # damping error: PM held
+            c2 = b.connect()
+            rel(b, "err-in", 1)
+            b.adv(1)
+            c3 = b.connect()
+            b.open(c3).advu(sec(59) - 1)
+            c4 = b.connect()
+            b.advu(1).adv(3)
+            c5 = b.connect()
+            b.open(c5).ka(c5).adv(1)
+            out.append(b.tag("damp", "pmgate").build())
     return out
 
 
@@ -1854,4 +1937,166 @@ def notif_out(rnd):
                     b.upd(c)
                 b.adv(1)
                 out.append(b.tag("hdr", "nout").build())
+    return out
+
+
+def backpressure():
+    """C04/C10/C06: the remote stops reading (send buffer full): corebgp's writes block.  corebgp sets no write
+    deadline, so a blocked write ends only when the remote reads again, resets, or the connection is closed by
+    another goroutine; nothing may be lost, duplicated, reordered per goroutine or torn meanwhile."""
+    out = []
+    for d in DIRS:
+        # application writer blocked, then the keepalive timer fires: both complete once the remote reads again
+        b = Sb("bp-app-ka-%s" % d, [peer(hold=9)])
+        b.start()
+        c = b.establish(direction=d, hold=9)
+        b.stall(c).write("p1", 1, [1, 1]).adv(3).write("p1", 1, [2]).adv(1).unstall(c).ka(c).adv(3).ka(c).adv(3)
+        out.append(b.tag("stall", "writer").build())
+        # blocked until the hold timer has expired: Hold Timer Expired follows the unblocked writes
+        b = Sb("bp-holdexp-%s" % d, [peer(hold=9)])
+        b.start()
+        c = b.establish(direction=d, hold=9)
+        b.stall(c).adv(3).adv(6).adv(1).unstall(c).adv(61)
+        out.append(b.tag("stall").build())
+        for end in ("reset", "cease", "eof", "notif"):
+            for who in ("app", "ka", "both"):
+                b = Sb("bp-%s-%s-%s" % (end, who, d), [peer(hold=9)])
+                b.start()
+                c = b.establish(direction=d, hold=9)
+                b.stall(c)
+                if who in ("app", "both"):
+                    b.write("p1", 1, [3, 3, 3])
+                if who in ("ka", "both"):
+                    b.adv(3)
+                {"reset": lambda: b.rreset(c), "cease": lambda: b.notif(c, 6, 0), "eof": lambda: b.rclose(c),
+                 "notif": lambda: b.notif(c, 3, 1)}[end]()
+                b.adv(1)
+                if end != "reset":
+                    b.unstall(c)
+                b.write("p1", 1, [4]).adv(70)
+                out.append(b.tag("stall", "writer", "end").build())
+        # writes made from the callbacks block the FSM itself
+        p = peer(hold=9, estWrites=[[1], [2, 2]], handlerWrites={"1": [[3]]})
+        b = Sb("bp-callbacks-%s" % d, [p])
+        b.start()
+        c = b.to_state("openConfirm", direction=d, hold=9)
+        b.stall(c).ka(c).adv(2).unstall(c).upd(c).stall(c).upd(c).upd(c).adv(4).unstall(c).ka(c).adv(2)
+        out.append(b.tag("stall", "writer").build())
+        # stop requests while the Cease cannot be written: they complete once the remote reads again
+        for stop in ("deletePeer", "close"):
+            for pre in ("idle", "app"):
+                b = Sb("bp-%s-%s-%s" % (stop, pre, d), [peer(hold=9)])
+                b.start()
+                c = b.establish(direction=d, hold=9)
+                b.stall(c)
+                if pre == "app":
+                    b.write("p1", 1, [5])
+                b.steps.append(multi(step(stop, peer="p1" if stop == "deletePeer" else ""), step("yield"), step("unstall", conn=c)))
+                b.adv(1)
+                out.append(b.tag("stall", "stop").build())
+    # NOTIFICATIONs that cannot be written at once are written late, never dropped: corebgp has no write deadline
+    for d in DIRS:
+        # no timers negotiated: an unexpected message is still answered with FSM Error
+        for lh, rh in ((0, 90), (90, 0)):
+            for st in ("openConfirm", "established"):
+                b = Sb("bp-hold0-%d-%d-%s-%s" % (lh, rh, st, d), [peer(hold=lh)])
+                b.start()
+                c = b.to_state(st, direction=d, hold=rh)
+                b.adv(200).open(c, hold=rh).adv(70)
+                out.append(b.tag("notif", "hold0").build())
+        for wait in (1, 6, 31):
+            for kind in ("handler", "openreply", "unexpected-oc", "unexpected-est", "badopen", "collision"):
+                kw = {}
+                if kind == "handler":
+                    kw["handlerReplies"] = {"1": {"code": 3, "sub": 1, "data": [7]}}
+                if kind == "openreply":
+                    kw["openReply"] = {"code": 2, "sub": 7, "data": [1]}
+                b = Sb("bp-notif-%s-%d-%s" % (kind, wait, d), [peer(hold=90, **kw)])
+                b.start()
+                if kind in ("handler", "unexpected-est"):
+                    c = b.establish(direction=d)
+                    b.stall(c)
+                    if kind == "handler":
+                        b.upd(c)
+                    else:
+                        b.open(c)
+                elif kind == "unexpected-oc":
+                    c = b.to_state("openConfirm", direction=d)
+                    b.stall(c).upd(c)
+                elif kind == "openreply":
+                    c = b.to_state("openSent", direction=d)
+                    b.stall(c).open(c)
+                elif kind == "badopen":
+                    c = b.to_state("openSent", direction=d)
+                    b.stall(c).send(c, frame(1, [3, 0xFD, 0xEA, 0, 90, 10, 0, 0, 2, 0]))
+                else:
+                    # the loser of a collision gets its Cease late
+                    c = b.to_state("openConfirm", direction=d, rid="10.0.0.2")
+                    b.stall(c)
+                    c2 = b.to_state("openConfirm", direction="in" if d == "out" else "out", rid="10.0.0.2")
+                b.adv(wait).unstall(c).adv(70)
+                out.append(b.tag("stall", "notif").build())
+    # the OPEN itself cannot be written
+    for d in DIRS:
+        b = Sb("bp-open-%s" % d, [peer(hold=9)])
+        b.start()
+        if d == "out":
+            cn = b.newconn()
+            b.steps.append(multi(step("dialAccept", peer="p1", conn=cn), step("stall", conn=cn)))
+        else:
+            cn = b.newconn()
+            b.steps.append(multi(step("connect", conn=cn, src="10.0.0.2:40000", dst="10.0.0.1:179"), step("stall", conn=cn)))
+        b.adv(5).unstall(cn).open(cn, hold=9).ka(cn).adv(3)
+        out.append(b.tag("stall", "racy").build())
+    return out
+
+
+def lis_fail():
+    """C10/C05: a listener's Accept fails while Serve runs: Serve stops every peer (Cease first), closes every
+    listener and returns that error; Close afterwards still returns; nothing is left behind."""
+    out = []
+    for nlis in (1, 2, 3):
+        for which in range(nlis):
+            for sess in ("none", "out", "in", "both-peers", "openSent"):
+                ps = [peer("p1", "10.0.0.2"), peer("p2", "10.0.0.3", remoteAS=65003, passive=True)]
+                b = Sb("lisfail-%d-%d-%s" % (nlis, which, sess), ps)
+                if nlis > 1:
+                    b.listeners = ["10.0.0.1:179", "0.0.0.0:179", "[::]:179"][:nlis]
+                b.start()
+                if sess == "out":
+                    b.establish("p1", "out")
+                elif sess == "in":
+                    b.establish("p1", "in")
+                elif sess == "both-peers":
+                    b.establish("p1", "out")
+                    b.establish("p2", "in", rid="10.0.0.3")
+                elif sess == "openSent":
+                    b.to_state("openSent", "p1", "out")
+                b.add("lisFail", lis=which)
+                b.adv(1).add("listPeers")
+                c = b.newconn()
+                b.add("connect", conn=c, src="10.0.0.3:40009", dst="10.0.0.1:179", lis=nlis - 1)   # nobody accepts any more
+                b.adv(1).close()
+                out.append(b.tag("stop", "lisfail").build())
+    return out
+
+
+def cease_subcodes(rnd=None):
+    """C11/C12: a received Cease never damps, whatever its subcode and data (RFC 4486 subcodes included)."""
+    out = []
+    for sub in list(range(0, 11)) + [255]:
+        for d in DIRS:
+            for st in ("openConfirm", "established"):
+                if st == "openConfirm" and sub not in (0, 1, 8):
+                    continue
+                b = Sb("ceasesub-%d-%s-%s" % (sub, d, st), [peer(passive=(d == "in"), idleHold=sec(2))])
+                b.start()
+                c = b.to_state(st, direction=d)
+                data = [0, 1, 1, 0, 0, 0, 100] if sub == 1 else []
+                b.notif(c, 6, sub, data)
+                if d == "out":
+                    b.advu(sec(2) - 1).advu(1)
+                c2 = b.establish(direction=d)
+                b.adv(1)
+                out.append(b.tag("pace", "nodamp", "passive" if d == "in" else "active").build())
     return out
